@@ -189,6 +189,43 @@ impl Family for Counts {
     }
 }
 
+/// column lists whose encoded definitions total far more than 2^16 bytes
+struct BulkyLists;
+const LISTS: [(usize, usize); 5] = [(1000, 60), (300, 200), (900, 100), (70, 1000), (4000, 30)];
+impl Family for BulkyLists {
+    fn name(&self) -> String {
+        "bulky-definition-lists".into()
+    }
+    fn len(&self) -> u64 {
+        LISTS.len() as u64
+    }
+    fn max_threads(&self) -> Option<usize> {
+        Some(6)
+    }
+    fn run(&self, idx: u64, st: &mut Stats) -> Result<(), Violation> {
+        let (n, name_len) = LISTS[idx as usize];
+        st.nontrivial += 1;
+        st.bump("bulky_lists");
+        let types = all_types();
+        let mk = |salt: usize| -> Arc<Vec<Column>> {
+            Arc::new(
+                (0..n)
+                    .map(|i| Column {
+                        table: format!("t{}", (i + salt) % 7),
+                        column: format!("{:0width$}", i * 31 + salt, width = name_len),
+                        coltype: types[(i + salt) % types.len()],
+                        colflags: ColumnFlags::from_bits_truncate(((i * 37 + salt) % 4096) as u16),
+                    })
+                    .collect(),
+            )
+        };
+        run_meta(3, &mk(1), &mk(2), st)
+    }
+    fn describe(&self, idx: u64) -> J {
+        json!({"definitions": LISTS[idx as usize].0, "name_bytes": LISTS[idx as usize].1})
+    }
+}
+
 struct Names {
     lens: Vec<usize>,
 }
@@ -304,7 +341,7 @@ pub fn build(quick: bool) -> Check {
     Check {
         id: "C09",
         level: "model_checking",
-        rule: format!("column descriptors declared through start() and StatementMetaWriter::reply on the real run_on, decoded by refwire and by mysql_common's Column/StmtPacket: every column count 0..{} (and 65535 in thorough) with table names cycling A, tbl_b, A, \"\", multibyte; table/column name lengths {{0,1,250,251,252,65535,65536,70000}}^2 in ASCII and 2-byte UTF-8; all {} column types x all {} representable flag words; statement ids {{0,1,255,256,65535,65536,2^31,2^32-1}} x (parameters, columns) in {{0,1,2,250,251,1000}}^2. Oracle: count, order, table, name, type, flags, id and both counts equal what was declared; EOF placement per the 4.1 protocol without DEPRECATE_EOF. Non-trivial = beyond the one-byte length class.", 1000, all_types().len(), nf),
+        rule: format!("column descriptors declared through start() and StatementMetaWriter::reply on the real run_on, decoded by refwire and by mysql_common's Column/StmtPacket: every column count 0..{} (and 65535 in thorough) with table names cycling A, tbl_b, A, \"\", multibyte; table/column name lengths {{0,1,250,251,252,65535,65536,70000}}^2 in ASCII and 2-byte UTF-8; lists of 70..4000 definitions totalling 100 KiB..400 KiB; all {} column types x all {} representable flag words; statement ids {{0,1,255,256,65535,65536,2^31,2^32-1}} x (parameters, columns) in {{0,1,2,250,251,1000}}^2. Oracle: count, order, table, name, type, flags, id and both counts equal what was declared; EOF placement per the 4.1 protocol without DEPRECATE_EOF. Non-trivial = beyond the one-byte length class.", 1000, all_types().len(), nf),
         assumptions: vec!["ColumnFlags can only represent its defined bits; all representable words are covered".into()],
         bounds: json!({"max_columns": if quick {1000} else {65535}, "flag_words": nf}),
         exhaustive: true,
@@ -312,9 +349,10 @@ pub fn build(quick: bool) -> Check {
         families: vec![
             Box::new(Counts { max: 1000, extra: if quick { vec![] } else { vec![65535] } }),
             Box::new(Names { lens: vec![0, 1, 250, 251, 252, 65535, 65536, 70000] }),
+            Box::new(BulkyLists),
             Box::new(TypesFlags { flags }),
             Box::new(PrepareShapes { counts: vec![0, 1, 2, 250, 251, 1000], ids: vec![0, 1, 255, 256, 65535, 65536, 1 << 31, u32::MAX] }),
         ],
-        required: vec!["more_than_250_columns", "names_longer_than_250", "type_flag_pairs", "wide_statement_ids"],
+        required: vec!["more_than_250_columns", "names_longer_than_250", "type_flag_pairs", "wide_statement_ids", "bulky_lists"],
     }
 }
